@@ -10,6 +10,8 @@ package vcoop
 
 import (
 	"fmt"
+	"reflect"
+	"runtime"
 	"sync"
 	"time"
 )
@@ -22,9 +24,15 @@ type Task struct {
 	Done    bool
 	Panic   interface{}
 	wake    chan struct{}
-	SkipOne string // a Point with this label is passed without parking, once (see Go)
-	Stuck   bool   // a step of this task did not come back in time (it is blocked inside the code under test)
-	Waiting bool   // the last step ended where it began: a failed lock attempt, or a waiting select none of whose cases was ready
+	SkipOne string        // a Point with this label is passed without parking, once (see Go)
+	Stuck   bool          // a step of this task did not come back in time (it is blocked inside the code under test)
+	Waiting bool          // the last step ended where it began: a failed lock attempt, or a waiting select none of whose cases was ready
+	WaitOn  []interface{} // the channels the waiting select this task is parked at receives from (see Wait)
+
+	spin      bool          // the task polls its waiting select without parking: a sender is in a real send to it (see Send)
+	spinFresh bool          // no poll since the spin began / the last poll found nothing ready
+	notify    chan struct{} // where the next park / the end of this task is signalled instead of Sched.parked
+	detached  bool          // released from the scheduler for good (see Detach)
 }
 
 // Sched owns the tasks of one test case.
@@ -33,6 +41,11 @@ type Sched struct {
 	Clock  int64
 	cur    *Task
 	parked chan struct{}
+
+	// Daemon is the goroutine the code under test started for itself while no task was running (GoDaemon; C19: the
+	// pool's ticker goroutine, started by pool.New).  It is a task like the others but not in Tasks until Adopt.
+	Daemon *Task
+	tick   chan time.Time // the channel of the ticker the daemon made (NewTicker): fed by Fire only
 }
 
 var (
@@ -62,8 +75,14 @@ func New() *Sched {
 
 // Spawn registers f as a new task, parked before its first statement.
 func (s *Sched) Spawn(label string, f func()) *Task {
-	t := &Task{ID: len(s.Tasks), Label: label, wake: make(chan struct{})}
+	t := s.newTask(label, f)
+	t.ID = len(s.Tasks)
 	s.Tasks = append(s.Tasks, t)
+	return t
+}
+
+func (s *Sched) newTask(label string, f func()) *Task {
+	t := &Task{ID: -1, Label: label, wake: make(chan struct{})}
 	go func() {
 		<-t.wake
 		defer func() {
@@ -72,11 +91,52 @@ func (s *Sched) Spawn(label string, f func()) *Task {
 			}
 			t.Done = true
 			t.Label = "done"
-			s.parked <- struct{}{}
+			s.signal(t)
 		}()
 		f()
 	}()
 	return t
+}
+
+// signal: t has parked (or ended).
+func (s *Sched) signal(t *Task) {
+	if t.detached {
+		return
+	}
+	if n := t.notify; n != nil {
+		t.notify = nil
+		n <- struct{}{}
+		return
+	}
+	s.parked <- struct{}{}
+}
+
+// Adopt makes the daemon an ordinary task with the next id.
+func (s *Sched) Adopt(t *Task) {
+	t.ID = len(s.Tasks)
+	s.Tasks = append(s.Tasks, t)
+}
+
+// Detach releases a parked task from the scheduler for good: it runs on as an ordinary goroutine (every vcoop call
+// passes through, a waiting select really waits).  Used at the end of a case for the daemon of a pool the case did
+// not shut down.
+func (s *Sched) Detach(t *Task) {
+	if t == nil || t.Done || t.Stuck || t.detached {
+		return
+	}
+	t.detached = true
+	t.wake <- struct{}{}
+}
+
+// Fire makes the ticker of the daemon fire (as time.Ticker does: the tick is dropped when one is pending already).
+func (s *Sched) Fire() {
+	if s.tick == nil {
+		return
+	}
+	select {
+	case s.tick <- time.Unix(s.Clock, 0):
+	default:
+	}
 }
 
 // ErrStuck is returned by Step when the task neither parked nor finished in time.
@@ -84,10 +144,17 @@ var ErrStuck = fmt.Errorf("task did not reach its next synchronisation point")
 
 // Step runs task id until its next Point (or its end).  ran=false: no such task or finished already.
 func (s *Sched) Step(id int, patience time.Duration) (ran bool, err error) {
-	if id < 0 || id >= len(s.Tasks) || s.Tasks[id].Done {
+	if id < 0 || id >= len(s.Tasks) {
 		return false, nil
 	}
-	t := s.Tasks[id]
+	return s.StepTask(s.Tasks[id], patience)
+}
+
+// StepTask is Step for a task given by pointer (the daemon before it is adopted).
+func (s *Sched) StepTask(t *Task, patience time.Duration) (ran bool, err error) {
+	if t == nil || t.Done {
+		return false, nil
+	}
 	if t.Stuck {
 		// it did not come back from an earlier step: it is not parked at a point, nothing can wake it
 		return false, ErrStuck
@@ -115,7 +182,9 @@ func (s *Sched) Step(id int, patience time.Duration) (ran bool, err error) {
 }
 
 // Point parks the running task at a synchronisation point.
-func Point(label string, arg interface{}) {
+func Point(label string, arg interface{}) { pointW(label, arg, nil) }
+
+func pointW(label string, arg interface{}, waitOn []interface{}) {
 	s, t := current()
 	if t == nil {
 		return
@@ -125,9 +194,145 @@ func Point(label string, arg interface{}) {
 		return
 	}
 	t.SkipOne = ""
-	t.Label, t.Arg = label, arg
-	s.parked <- struct{}{}
+	if t.spin {
+		if t.spinFresh && label == t.Label {
+			// the poll of the waiting select this task is parked at, repeated without parking (see Send)
+			t.spinFresh = false
+			return
+		}
+		t.spin = false // the poll took a case: the task has moved on, it parks as usual
+	}
+	t.Label, t.Arg, t.WaitOn = label, arg, waitOn
+	s.signal(t)
 	<-t.wake
+}
+
+// Wait is the Point in front of a waiting select (one without default): chans are the channels its cases receive from.
+func Wait(label string, chans ...interface{}) {
+	pointW(label, nil, chans)
+}
+
+// Scheduled tells whether the calling goroutine is a task of the running scheduler.
+func Scheduled() bool {
+	_, t := current()
+	return t != nil
+}
+
+func sameChan(a, b interface{}) bool {
+	va, vb := reflect.ValueOf(a), reflect.ValueOf(b)
+	return va.IsValid() && vb.IsValid() && va.Kind() == reflect.Chan && vb.Kind() == reflect.Chan && va.Pointer() == vb.Pointer()
+}
+
+// Send replaces a send statement `ch <- v` of instrumented code.  There is a Point before every attempt; an attempt
+// that cannot complete parks again at the same label (as a failed lock attempt does).  A send on a buffered channel
+// completes when there is room.  A send on an unbuffered channel completes when another task is parked in a waiting
+// select that receives from ch and has found none of its cases ready (it is "blocked in the select"): the value is
+// handed over by a real send while that task repeats its poll, and the receiver runs on to its next Point (or its
+// end) before the sender continues — the rendezvous is one step of the sender.
+func Send(label string, ch interface{}, v interface{}) {
+	s, t := current()
+	rv := reflect.ValueOf(ch)
+	val := reflect.ValueOf(v)
+	if !val.IsValid() {
+		val = reflect.Zero(rv.Type().Elem())
+	}
+	if t == nil {
+		rv.Send(val)
+		return
+	}
+	for {
+		Point(label, nil)
+		if rv.Cap() > 0 {
+			if rv.TrySend(val) {
+				return
+			}
+			t.Waiting = true
+			continue
+		}
+		var rcv *Task
+		all := s.Tasks
+		if s.Daemon != nil && s.Daemon.ID < 0 {
+			all = append(append([]*Task{}, all...), s.Daemon)
+		}
+		for _, x := range all {
+			if x == t || x.Done || x.Stuck || !x.Waiting {
+				continue
+			}
+			for _, c := range x.WaitOn {
+				if sameChan(c, ch) {
+					rcv = x
+				}
+			}
+		}
+		if rcv == nil {
+			t.Waiting = true
+			continue
+		}
+		go rv.Send(val)
+		done := make(chan struct{})
+		mu.Lock()
+		s.cur = rcv
+		mu.Unlock()
+		rcv.Waiting, rcv.spin, rcv.spinFresh, rcv.notify = false, true, true, done
+		rcv.wake <- struct{}{}
+		<-done
+		mu.Lock()
+		s.cur = t
+		mu.Unlock()
+		return
+	}
+}
+
+// GoDaemon replaces the go statement by which the code under test starts its own background goroutine outside any
+// task (C19: pool.New starts cleanUpTick).  With a scheduler active it becomes the scheduler's Daemon task.
+func GoDaemon(f func()) {
+	mu.Lock()
+	s := active
+	cur := (*Task)(nil)
+	if s != nil {
+		cur = s.cur
+	}
+	mu.Unlock()
+	if s == nil {
+		go f()
+		return
+	}
+	if cur != nil || s.Daemon != nil {
+		Go("", f)
+		return
+	}
+	s.Daemon = s.newTask("daemon", f)
+}
+
+// Ticker replaces *time.Ticker in the daemon: under a scheduler it fires when Sched.Fire says so.
+type Ticker struct {
+	C    <-chan time.Time
+	real *time.Ticker
+}
+
+func (t *Ticker) Stop() {
+	if t.real != nil {
+		t.real.Stop()
+	}
+}
+
+func (t *Ticker) Reset(d time.Duration) {
+	if t.real != nil {
+		t.real.Reset(d)
+	}
+}
+
+// NewTicker replaces time.NewTicker.
+func NewTicker(d time.Duration) *Ticker {
+	s, t := current()
+	if t == nil {
+		r := time.NewTicker(d)
+		return &Ticker{C: r.C, real: r}
+	}
+	if s.tick == nil {
+		s.tick = make(chan time.Time, 1)
+	}
+	return &Ticker{C: s.tick}
 }
 
 // Lock acquires mu with a point before every attempt; a failed attempt parks again at the same label.
@@ -148,11 +353,16 @@ func Lock(m *sync.Mutex, label string) {
 
 // Blocked is called by the poll that replaces a waiting select (one without default) or a bare channel receive of the
 // instrumented code when no case is ready: the task goes back to the Point in front of the select and parks there
-// again, as a failed lock attempt does.  Without a scheduler the poll sleeps a moment.
+// again, as a failed lock attempt does.  (Without a scheduler the instrumented code really waits, see Scheduled.)
 func Blocked() {
 	_, t := current()
 	if t == nil {
-		time.Sleep(200 * time.Microsecond)
+		runtime.Gosched() // (a task that was detached in the middle of a poll: its next attempt really waits)
+		return
+	}
+	if t.spin {
+		t.spinFresh = true
+		runtime.Gosched()
 		return
 	}
 	t.Waiting = true
@@ -163,11 +373,51 @@ func Blocked() {
 func Go(first string, f func()) {
 	s, t := current()
 	if t == nil {
+		if h := hooks(); h.Panic != nil {
+			// a harness that runs the instrumented code without a scheduler wants to hear of a crash in a goroutine the
+			// code under test started for itself, instead of dying with it
+			go func() {
+				defer func() {
+					if r := recover(); r != nil {
+						h.Panic(r)
+					}
+				}()
+				f()
+			}()
+			return
+		}
 		go f()
 		return
 	}
 	nt := s.Spawn("spawned", f)
 	nt.SkipOne = first
+}
+
+// Hooks of a harness that runs instrumented code without a scheduler (C19: the real remote target).
+type Hooks struct {
+	Panic func(v interface{})                // a goroutine started by the code under test (Go) panicked
+	Event func(kind string, arg interface{}) // see Event
+}
+
+var theHooks Hooks
+
+func SetHooks(h Hooks) {
+	mu.Lock()
+	theHooks = h
+	mu.Unlock()
+}
+
+func hooks() Hooks {
+	mu.Lock()
+	defer mu.Unlock()
+	return theHooks
+}
+
+// Event is inserted at the entry of functions the monitor counts calls of (C19: mxConn.Close).
+func Event(kind string, arg interface{}) {
+	if h := hooks(); h.Event != nil {
+		h.Event(kind, arg)
+	}
 }
 
 // Now replaces time.Now in instrumented code.  Under a scheduler it is the scheduler's clock; otherwise the
